@@ -373,7 +373,12 @@ impl<'a, 'b> G<'a, 'b> {
                 // qualified path
                 self.ts(&["<"]);
                 self.ty(d - 1);
-                self.ts(&["as", "Iterator", ">", "::", "Item"]);
+                if self.c.chance(1, 3) {
+                    self.ts(&["as", "::", "core", "::", "iter", "::", "Iterator", ">", "::", "Item"]);
+                    self.tag("global-trait-path");
+                } else {
+                    self.ts(&["as", "Iterator", ">", "::", "Item"]);
+                }
             }
         }
     }
@@ -975,6 +980,17 @@ impl<'a, 'b> G<'a, 'b> {
                 for i in 0..k {
                     if i > 0 {
                         self.t(",");
+                    }
+                    if self.c.chance(1, 8) {
+                        // an attribute on a field of a struct literal
+                        let a = *self.c.pick(&["cfg(test)", "allow(unused)", "cfg(feature = \"f\")"]);
+                        self.ts(&["#", "["]);
+                        for t in crate::lex::significant(a) {
+                            let txt = t.text(a).to_string();
+                            self.t(&txt);
+                        }
+                        self.t("]");
+                        self.tag("struct-literal-field-attr");
                     }
                     let f = self.ident();
                     self.t(&f);
